@@ -47,7 +47,7 @@ ASSUMPTIONS = [
 ]
 BUDGET = {"quick": 50, "thorough": 450}
 NCASES = {"quick": 3000, "thorough": 60000}
-FLOORS = {"quick": {"case_held": 350, "ambiguity_checks": 100, "structure_checks": 300}, "thorough": {"case_held": 8000, "ambiguity_checks": 2000, "structure_checks": 6000}}
+FLOORS = {'quick': {'case_held': 350, 'ambiguity_checks': 100, 'structure_checks': 300}, 'thorough': {'case_held': 8000, 'ambiguity_checks': 2000, 'structure_checks': 6000, 'suite:apply_restrictions:held': 4}}
 COVER_FLOORS = {"quick": {"modes_held": ["propagate", "default"]}, "thorough": {"modes_held": ["propagate", "default"]}}
 CELLS = [("interval", 1), ("interval", 2), ("triangle", 2), ("triangle", 2), ("triangle", 3), ("tetrahedron", 3)]
 
@@ -226,3 +226,15 @@ def _localise(pre, dr, worlds):
         if any(v.kind in ("disagree", "output-ambiguous") for v in vs):
             return skeleton(sub, 1)
     return skeleton(pre, 1)
+
+
+# ---- additional workload (thorough tier): the repository's own test-suite with this property's passes monitored
+EXTRA_JOBS = {"thorough": ["suite"]}
+SUITE_TARGETS = ['apply_restrictions']
+
+
+def extra_suite(ctx):
+    """Every call the repository's tests make to the monitored passes is judged by the same value oracle (vf/suitemon.py)."""
+    from ..suite_driver import run_suite
+
+    run_suite(ctx, SUITE_TARGETS, "C17")
